@@ -20,6 +20,21 @@ CHECKS = {
         "bound_text": "expression families: trees with <= budget operator/wrapper nodes (quick 1, thorough 2) over 13 non-operator positions, operator-in-position-in-operator sandwiches, operator chains (quick 2, thorough 3), e-op-e, if/else; 16 statement embeddings (quick: all 16 for small trees, used/discarded/function-tail for the other families); operators: one representative per VM dispatch group; operand kinds nil/int/float/bool symbolic, strings/arrays of length <= 2",
         "assumptions": ["generated trees are exactly trees the parser can produce (statement forms only in statement positions)"],
     },
+    "C09": {
+        "runs": [
+            {"harness": ["internal/vsess.VerifC09Stmt"], "pkgs": ["./internal/vsess"], "fuel": 3000000,
+             "params_quick": {"sdepth": 1, "polykinds": 3}, "params_thorough": {"sdepth": 2},
+             "covers": {"VerifC09Stmt": ["value", "runtime-error"]}},
+            {"harness": ["internal/vsess.VerifC09Expr"], "pkgs": ["./internal/vsess"], "fuel": 3000000,
+             "params_quick": {"budget": 1, "nops": 3, "leaves": 2, "polykinds": 3}, "params_thorough": {"budget": 2, "nops": 5, "leaves": 4},
+             "covers": {"VerifC09Expr": ["value", "runtime-error"]}},
+            {"harness": ["internal/vsess.VerifC09Loop"], "pkgs": ["./internal/vsess"], "fuel": 20000000, "maxdec": 40000,
+             "params_quick": {"sdepth": 1, "budget": 1, "nops": 3, "leaves": 3, "polykinds": 3, "iterations": 140}, "params_thorough": {"sdepth": 1, "budget": 1, "iterations": 300},
+             "covers": {"VerifC09Loop": ["compared"]}},
+        ],
+        "bound_text": "statement trees of depth <= 1 (quick) / 2 (thorough) in 8 body positions; expression families in 16 embeddings; loops of 1 vs 140 (thorough 300) iterations in 5 loop shapes",
+        "assumptions": [],
+    },
     "C11": {
         "runs": [
             {"harness": ["types/value." + h for h in C11_HARN], "pkgs": ["./types/value"], "cross": 7, "params_quick": {"maxlen": 1}, "params_thorough": {"maxlen": 2},
@@ -82,6 +97,7 @@ CHECKS = {
 }
 
 LEVEL_TEXT = {
+    "C09": "The compiler and VM are executed symbolically on generated statements in used/discarded/returning positions; after every run (normal, return, runtime error) the operand stack pointer, frame stack, closure stack, live iterator contexts and the main instruction pointer are read through accessors and must be back at their idle values, and a loop run 1 vs N>128 times must leave the operand stack array equally long. Operand kinds and literal values are solver variables, so which branch of a conditional runs in an iteration is decided by the solver.",
     "C05": "The whole pipeline (symbol rewriting, bytecode compiler with its context flags and temp-register strategy, VM, value algebra, memory) is executed symbolically from SSA on generated syntax trees. Tree shapes and embeddings are enumerated by forking; operand kinds (nil/int/float/bool) and all literal payloads are solver variables, so e.g. a zero divisor, an index equal to the length or a NaN is a model the solver must exclude. Any feasible Go panic path, non-terminating run or undocumented error class is a violation, replayed natively.",
     "C18": "Every method of memory.Type is executed symbolically from SSA along solver-chosen operation sequences and call/fork scenarios whose sizes cross the 128-cell allocation boundaries, beside a capacity-free reference model; after every operation every variable of every live context is read back and must equal the last value written (values are symbolic, so equality is a solver verdict, and every Go panic path such as an index out of range must be infeasible). Sizes are enumerated from a boundary set, not symbolic: the engine has no symbolic-length slices.",
     "C13": "TLexer and every combinator are executed symbolically from SSA. For the lexer the cursor and saved cursors of the pre-state are solver variables constrained only by the representation invariant, so one-step results cover histories of any length; combinators run over the real TLexer with sub-parser outcomes as solver-chosen functions of position and are compared with an ordered-choice reference recogniser (accept/reject, results, final position, snapshot depth).",
